@@ -1109,6 +1109,14 @@ def _diff_with_model(ctx, batches):
     ctx.extra['model_lines'] = ctx.extra.get('model_lines', 0) + len(all_lines)
 
 
+def run_fresh(ctx, n):
+    """Histories of arbitrary edits (raw children re-seated, replaced, removed; values assigned) on generated ledgers: after
+    every step every public property of the edited model reads what it reads on a deep copy of that model - what a
+    property returns depends on the content, never on which object held a child when some view was first read."""
+    import session
+    session.run_sessions(ctx, n, 14, ['fresh'], prefix='C09:')
+
+
 def run(ctx):
     batches = []
     n = len(ctx.oracle_fails)
@@ -1120,6 +1128,7 @@ def run(ctx):
     if len(ctx.oracle_fails) > n:
         shrink_last_failure(ctx, run_txn_sequence)
     run_generic(ctx)
+    run_fresh(ctx, ctx.scale(150, 3000))
     _diff_with_model(ctx, batches)
 
 
@@ -1144,6 +1153,8 @@ def search(ctx, hints):
             shrink_last_failure(ctx, run_txn_sequence)
     if len(ctx.oracle_fails) == n0:
         run_generic(ctx, per_doc=40)
+    if len(ctx.oracle_fails) == n0:
+        run_fresh(ctx, ctx.scale(1000, 4000))
 
 
 def replay(ctx, data):
@@ -1151,6 +1162,9 @@ def replay(ctx, data):
     if not rep:
         return False
     part = rep.get('part')
+    if part is None and 'ops' in rep and 'text' in rep:
+        import session
+        return not session.replay(data, ['fresh'])
     before = len(ctx.oracle_fails)
     lines = []
     if part == 'cost' and 'form' in rep:
